@@ -67,7 +67,7 @@ def check(rep, rule, rel, qualname, kind, target, text, message, setter=False, a
     elif kind == "ret":
         rets = [r.value for r in ast.walk(fn) if isinstance(r, ast.Return) and r.value is not None]
         if rets:
-            v = rets[-1]
+            v = core.resolve_name(fn, rets[-1])
             if target is not None and isinstance(v, ast.Tuple):
                 v = v.elts[target]
             got = tr.expr(v, env)
